@@ -31,6 +31,25 @@ def geometry_only(q):
     return True
 
 
+def _provably_positive(e):
+    """c + (sum of terms known to be >= 0) with c > 0: a positive number plus squares / absolute values"""
+    const = e.t.get((), None)
+    if const is None or const.im != 0 or const.re <= 0:
+        return False
+    for m, c in e.t.items():
+        if m == ():
+            continue
+        if c.im != 0 or c.re < 0:
+            return False
+        for a, x in m:
+            if a[0] == "abs" or (a[0] == "s" and a[1] in alg.POSITIVE):
+                continue
+            if x % 2 == 0 and alg.atom_is_real(a):
+                continue
+            return False
+    return True
+
+
 def singular_atoms(e):
     out = []
     for m in e.t:
@@ -75,6 +94,7 @@ def run(tier="quick", only_key=None):
     ck.rule("ad-hostile", "no stop_gradient, piecewise-constant primitive, integer cast, numpy call, python coercion, callback, while_loop or custom derivative rule in any function reachable from the public stepper API (constructors, __call__/step/step_fourier, nonlinear terms, integrators, rollout/repeat)")
     ck.rule("fixture", "the banned-construct rule matches its positive fixture")
     ck.rule("where-guard", "every singular expression (1/e, e**-k, sqrt, power) inside a jnp.where branch on a stepper path depends on geometry only (wavenumbers, L, N) or divides by an already guarded value: the NaN cotangent of the masked branch never reaches a differentiated input")
+    ck.rule("smooth-primitives", "no sqrt / norm / fractional or negative power / log / division whose argument depends on the state (or another differentiated input) and can vanish: d sqrt(x)/dx is unbounded at x = 0, so jvp/vjp are NaN at constant or zero states although the value is finite")
     ck.rule("linearity", "the order-0 steppers' step_fourier is homogeneous of degree exactly 1 in the state: the Jacobian is the map")
     ck.rule("loops", "every loop of the trajectory utilities / integrators is a jax.lax.scan (reverse-differentiable); no while_loop / fori_loop in the package")
     # ---- positive fixture
@@ -90,6 +110,7 @@ def run(tier="quick", only_key=None):
     it.ctx.opaque_nonlinear = True
     it.ctx.call_log = set()
     it.ctx.where_log = []
+    it.ctx.singular_log = []
     steppers = catalog.exported_steppers(it)
     n_lin = 0
     for pub, cls in steppers:
@@ -128,6 +149,7 @@ def run(tier="quick", only_key=None):
     it_e = new_interp(ck.repo, parity=0, stub_etdrk=False)
     it_e.ctx.call_log = set()
     it_e.ctx.where_log = []
+    it_e.ctx.singular_log = []
     et = it_e.module("exponax.etdrk").env
     linop = Tens((1, N, H_of(0)), [Poly.atom(("s", "lam"))])
     for n in range(5):
@@ -189,6 +211,31 @@ def run(tier="quick", only_key=None):
                     else:
                         ck.fail("where-guard", key, f"{w['file']}:{w['line']}", f"`{w['src'][:120]}`: the masked branch contains {kind} of {q}, which depends on a differentiated input: its NaN/inf cotangent reaches that input's gradient (use the guard-before-divide idiom)")
     ck.floor("guarded where sites", n_where, 4)
+    # ---- R7.6 singular primitives applied to differentiated values
+    n_sing = n_sing_geo = 0
+    seen_s = set()
+    for w in it.ctx.singular_log + it_e.ctx.singular_log:
+        key = f"{w['fn']}#{w['kind']}#{w['src'][:80]}"
+        if key in seen_s:
+            continue
+        seen_s.add(key)
+        offending = None
+        for e in w["arg"].data:
+            e = as_poly(e)
+            if geometry_only(e):
+                continue
+            if _provably_positive(e):
+                continue
+            offending = e
+            break
+        n_sing += 1
+        if offending is None:
+            n_sing_geo += 1
+            ck.ok("smooth-primitives", key)
+            ck.sample({"rule": "smooth-primitives", "site": f"{w['file']}:{w['line']}", "kind": w["kind"], "verdict": "argument depends on geometry only / is bounded away from zero"})
+        else:
+            ck.fail("smooth-primitives", key, f"{w['file']}:{w['line']}", f"`{w['src'][:120]}`: {w['kind']} of {alg.fmt(offending)[:160]}, which depends on a differentiated input and vanishes e.g. at a constant state: the derivative is unbounded there")
+    ck.floor("singular-primitive sites inspected", n_sing, 3)
     # ---- R7.4 loops
     n_scan = 0
     for mod in ck.repo.modules.values():
